@@ -504,6 +504,10 @@ def units(tier):
                     continue
                 if not th and len(MOD[sym]) > 1 and nd >= 3 and lt > 1:
                     continue
+                # thorough never finished in 90 minutes with three blocks / four legs for every symmetry: the deepest shapes run for
+                # U(1) and Z2 only (three blocks up to three legs; four legs up to two blocks), product symmetries as in the quick tier + lt 2
+                if th and (lt == 3 or nd == 4) and not (sym in ('U1', 'Z2') and ((lt == 3 and nd <= 3) or (nd == 4 and lt <= 2))):
+                    continue
                 lab = f"{sym},nd={nd},axes={axes},trans={trans},lt={lt}"
                 U.append(('h_fuse_hard', lab, dict(sym=sym, nd=nd, lt=lt, axes=axes, trans=trans)))
                 U.append(('h_fuse_meta', lab, dict(sym=sym, nd=nd, lt=lt, axes=axes, trans=trans)))
